@@ -68,7 +68,6 @@ theorem decTs_tsBlock (low high : Nat) (tss : List Nat) (hlh : low ≤ high) (hh
   unfold decTs tsBlock encTs
   simp only [hw, Option.getD_some]
   rw [if_neg (by simp [leN_length])]
-  trace_state
   rw [if_neg (by simp), rdN_leN 8 low _ hlow]
   simp only
   rw [hbody, Nat.mul_div_cancel _ hpos, Nat.mod_eq_of_lt hn, Nat.min_self, if_neg (by simp)]
@@ -174,8 +173,8 @@ theorem step_inv (lim : Nat) (st : ColSt) (pre : List (Option Val)) (v : Option 
       all_goals (simp [hs] at h)
     | true =>
       simp only [ColSt.step, hs]
-      refine ⟨fun h => by simp [hs] at h, fun _ => ?_, fun _ hf => ?_, ?_, fun _ => by simp⟩
-      · simp [inv.seen hs, encCol_append, encCol, getB, encTLV]
+      refine ⟨fun h => by simp at h, fun _ => ?_, fun _ hf => ?_, ?_, fun _ => by simp⟩
+      · simp [inv.seen hs, encCol, getB, encTLV]
       · simp [inv.sizes hs hf, getB, encTLV]
       · intro s hs'
         simp at hs'
@@ -187,8 +186,8 @@ theorem step_inv (lim : Nat) (st : ColSt) (pre : List (Option Val)) (v : Option 
     cases hs : st.seen with
     | true =>
       simp only [ColSt.step, hs]
-      refine ⟨fun h => by simp [hs] at h, fun _ => ?_, fun _ hf => ?_, ?_, fun _ => by simp⟩
-      · simp [inv.seen hs, encCol_append, encCol, getB]
+      refine ⟨fun h => by simp at h, fun _ => ?_, fun _ hf => ?_, ?_, fun _ => by simp⟩
+      · simp [inv.seen hs, encCol, getB]
       · simp [inv.sizes hs hf, getB]
       · intro s hs'
         simp at hs'
